@@ -61,6 +61,12 @@ def dim_record(d):
                               tla_value(d["vals"]), tla_value(bool(d["date"]))))
 
 
+def filter_record(f):
+    f = dict(f or {})
+    return {"style": f.get("style", "none"), "sel": f.get("sel", 0), "oth": f.get("oth", 0),
+            "catdate": bool(f.get("catdate", False)), "fn": f.get("fn"), "un": f.get("un")}
+
+
 def mc_defs(scn):
     """operator definitions placed in the generated MC module"""
     import configs
@@ -68,6 +74,7 @@ def mc_defs(scn):
         "MC_Configs": configs.tla_configs(scn.get("configs") or [configs.DEFAULT]),
         "MC_Dims": "<<" + ", ".join(dim_record(d) for d in scn["dims"]) + ">>",
         "MC_Weights": tla_value(set(scn["weights"])),
+        "MC_Filter": tla_value(filter_record(scn.get("filter"))),
         "MC_YVals": tla_value(set(scn["yvals"])),
     }
 
@@ -84,6 +91,9 @@ def mc_cfg(scn, family, invariants=("EmitInv",), extra_constants=(), sim=False):
         "  ValidCounts = %s" % ("TRUE" if scn.get("valid_counts") else "FALSE"),
         "  SimMode = %s" % ("TRUE" if sim else "FALSE"),
         "  SumNaN = %s" % ("TRUE" if scn.get("sum_nan") else "FALSE"),
+        ("  Population <- NoPopulation" if scn.get("population") is None
+         else "  Population = %d" % scn["population"]),
+        "  Filter <- MC_Filter",
         "  Scn = %s" % tla_value(scn["name"]),
         "  Family = %s" % tla_value(family),
         "  MinBase = %d" % scn["min_base"],
